@@ -238,6 +238,7 @@ func (a *drvACL) Check(string, string) bool { return true }
 type subRun struct {
 	d      subDesc
 	env    *subEnv
+	port   int // of the peer address, unique per subscriber
 	ctx    context.Context
 	cancel context.CancelFunc
 	reqs   chan *pb.SubscribeRequest
@@ -666,14 +667,63 @@ func (e *subEnv) quiesce() {
 			return nil
 		})
 	}
+	// a refused RPC has returned by now (its transient share of the statistics is gone)
+	for _, r := range e.sortedRuns() {
+		if r.started && !r.isStalled() {
+			r.waitFor(bound, func() bool { return r.ended || r.syncs >= 1 || r.nsend >= 1 })
+		}
+	}
+	// ... and every live sender has drained its queue and is blocked on it (sentinels of the other
+	// origin / container may still have been pending when the awaited one arrived)
+	idle := map[string]bool{}
+	for _, r := range e.sortedRuns() {
+		q := r.getQueue()
+		if !r.started || r.isEnded() || r.isStalled() || q == nil {
+			continue
+		}
+		deadline := time.Now().Add(2 * time.Second)
+		for time.Now().Before(deadline) {
+			if v, ok := queueIdle.Load(q); ok && v.(bool) && q.Len() == 0 {
+				idle[r.d.Name] = true
+				break
+			}
+			time.Sleep(50 * time.Microsecond)
+		}
+	}
 	subs := []trace.E{}
 	for _, r := range e.sortedRuns() {
 		r.mu.Lock()
 		subs = append(subs, trace.E{"s": r.d.Name, "started": r.started, "ended": r.ended, "stalled": r.stalled, "syncs": r.syncs,
-			"late": atomic.LoadInt64(&r.late)})
+			"late": atomic.LoadInt64(&r.late), "idle": idle[r.d.Name]})
 		r.mu.Unlock()
 	}
-	e.emit(trace.E{"ev": "quiesce", "proj": proj, "subs": subs, "targets": targets})
+	e.emit(trace.E{"ev": "quiesce", "proj": proj, "subs": subs, "targets": targets, "stats": e.serverStats()})
+}
+
+// serverStats projects the server's statistics (subscribe.WithStats): per subscription mode and per
+// requested target the active and cumulative RPC counts, per client the coalesce count and queue size
+// (clients are told apart by the port of the peer address the driver gave them).
+func (e *subEnv) serverStats() trace.E {
+	types, tgts, clients := []trace.E{}, []trace.E{}, []trace.E{}
+	for k, v := range e.srv.TypeStats() {
+		types = append(types, trace.E{"k": k, "active": v.ActiveSubscriptionCount, "total": v.SubscriptionCount})
+	}
+	for k, v := range e.srv.TargetStats() {
+		tgts = append(tgts, trace.E{"k": k, "active": v.ActiveSubscriptionCount, "total": v.SubscriptionCount})
+	}
+	for k, v := range e.srv.ClientStats() {
+		name := "?"
+		for _, r := range e.runs {
+			if strings.HasPrefix(k, fmt.Sprintf("127.0.0.1:%d:", r.port)) {
+				name = r.d.Name
+			}
+		}
+		clients = append(clients, trace.E{"s": name, "t": v.Target, "coalesce": v.CoalesceCount, "qsize": v.QueueSize})
+	}
+	for _, l := range [][]trace.E{types, tgts, clients} {
+		sort.Slice(l, func(i, j int) bool { return fmt.Sprint(l[i]) < fmt.Sprint(l[j]) })
+	}
+	return trace.E{"types": types, "targets": tgts, "clients": clients}
 }
 
 // othersProgress checks, while some subscribers are still stalled, that every other live
@@ -735,6 +785,7 @@ var subDelaySeed int64
 
 var queueOwner sync.Map // *coalesce.Queue -> *subRun
 
+var queueIdle sync.Map   // *coalesce.Queue -> bool: its consumer saw it empty and no insertion has refilled it since
 var slowWalkers sync.Map // goroutine id -> true
 var nSlowWalkers int32
 
@@ -774,7 +825,15 @@ func subHook(point string, arg interface{}) {
 				atomic.AddInt32(&nSlowWalkers, -1)
 			}
 		}
+	case "next.empty":
+		// the sender found its queue empty and is about to block
+		if q, ok := arg.(*coalesce.Queue); ok {
+			queueIdle.Store(q, true)
+		}
 	case "insert.checked", "insert.done":
+		if q, ok := arg.(*coalesce.Queue); ok && point == "insert.done" && q.Len() > 0 {
+			queueIdle.Store(q, false)
+		}
 		if atomic.LoadInt32(&nSlowWalkers) > 0 {
 			if _, ok := slowWalkers.Load(goid()); ok {
 				time.Sleep(150 * time.Microsecond)
@@ -857,9 +916,10 @@ func runSubScenario(w *trace.Writer, sc subScenario) bool {
 		"acl_err": trace.Strs(sc.ACLErr), "timeout_ms": sc.TimeoutMs})
 	for _, d := range sc.Subs {
 		ctx := context.WithValue(context.Background(), userKey{}, d.User)
-		ctx = peer.NewContext(ctx, &peer.Peer{Addr: &net.TCPAddr{IP: net.IPv4(127, 0, 0, 1), Port: 1000 + len(e.runs)}})
+		port := 1000 + len(e.runs)
+		ctx = peer.NewContext(ctx, &peer.Peer{Addr: &net.TCPAddr{IP: net.IPv4(127, 0, 0, 1), Port: port}})
 		ctx, cancel := context.WithCancel(ctx)
-		r := &subRun{d: d, env: e, ctx: ctx, cancel: cancel, reqs: make(chan *pb.SubscribeRequest, 4), eof: make(chan struct{}),
+		r := &subRun{d: d, env: e, port: port, ctx: ctx, cancel: cancel, reqs: make(chan *pb.SubscribeRequest, 4), eof: make(chan struct{}),
 			sentSeen: map[string]int64{}}
 		r.cond = sync.NewCond(&r.mu)
 		e.runs[d.Name] = r
